@@ -33,7 +33,71 @@ class ThreadsProperty:
                     sc["threads"].append(dict(name="T%d" % t, ops=ops))
             sc["instr"] = r.choice((100, 400, 2000, 2000))
             sc["instr_target"] = r.choice((0, 30, 100, 300, -3000, -3000, -8000))      # a seeded set of call sites is pre-empted at their first entries
+            if r.random() < self.sweep_share:
+                # systematic site sweep (see run_sweep): one profile run, then one run per candidate call site
+                sc["instr_target"] = 0
+                sc["faults"] = {}
+                return dict(sc=sc, sweep=1)
         return dict(sc=sc)
+
+    sweep_share = 0.1
+    sweep_max_sites = 2500
+
+    def run(self, case, fresh=False):
+        if case.get("sweep") and not fresh:
+            return self.run_sweep(case)
+        return self.run_one(dict(sc=case["sc"]), fresh)
+
+    def run_sweep(self, case):
+        """Systematic site sweep on the instrumented build. A profile run of the scenario (no extra pre-emption) lists every
+        distinct (call site, thread) pair entered while another thread was runnable; the scenario is then run once per listed
+        site with that call site as the run's only extra pre-emption point (on up to 64 entries, the thread switched to gets
+        a priority burst). A window that is one function call wide inside engine code is met by enumeration, not by luck.
+        The first violating run is the outcome (its case carries the site, so shrinking and replay work on a plain case)."""
+        import hashlib
+        import random
+        base = th.normalise(case["sc"])
+        prof = dict(base, instr_profile=1)
+        prof.pop("instr_site", None)
+        out0 = self.run_one(dict(sc=prof), False, keep_events=True)
+        if out0.harness_error or out0.violation:
+            return out0
+        sites = th.profiled_sites(out0.events) or []
+        total = len(sites)
+        if total > self.sweep_max_sites:
+            rr = random.Random(base["seed"])
+            sites = sorted(rr.sample(sites, self.sweep_max_sites))
+        agg = dict(out0.stats)
+        agg["sweep_scenarios"] = 1
+        agg["sweep_candidate_sites"] = total
+        agg["sweep_site_runs"] = 0
+        agg["sweep_sites_that_preempted"] = 0
+        h = hashlib.sha256(out0.digest.encode())
+        shapes = set()
+        for (addr, thread, entries, sym) in sites:
+            sc = dict(base, instr_site=addr)
+            out = self.run_one(dict(sc=sc), False)
+            agg["sweep_site_runs"] += 1
+            if out.harness_error:
+                return out
+            h.update(out.digest.encode())
+            for k, v in out.stats.items():
+                if isinstance(v, dict):
+                    d = agg.setdefault(k, {})
+                    for kk, vv in v.items():
+                        d[kk] = d.get(kk, 0) + vv
+                elif isinstance(v, (int, float)):
+                    agg[k] = agg.get(k, 0) + v
+            if out.stats.get("instr_preemption_points"):
+                agg["sweep_sites_that_preempted"] += 1
+            shapes.add(out.shape)
+            if out.violation:
+                out.violation["detail"] = "[site sweep: only extra pre-emption point is call site %s (%s) on thread %d] %s" % (addr, sym or "?", thread, out.violation.get("detail"))
+                out.stats = agg
+                out.case = dict(sc=sc)
+                return out
+        agg["sweep_distinct_interleavings"] = len(shapes)
+        return Outcome(stats=agg, digest=h.hexdigest()[:16], nontrivial=True, sample=out0.sample, shape=out0.shape)
 
     def execute(self, case, fresh):
         sc = th.normalise(case["sc"])
@@ -42,7 +106,7 @@ class ThreadsProperty:
         res = runner.run_fresh(text, san=variant) if fresh else runner.run(text, san=variant, timeout=30)
         return sc, text, res
 
-    def outcome(self, sc, text, res, v, stats):
+    def outcome(self, sc, text, res, v, stats, keep_events=False):
         end = [e for e in res.events if e["k"] == "end"]
         if end:
             e = end[0]
@@ -60,8 +124,11 @@ class ThreadsProperty:
         else:
             ihash = None
         nontrivial = stats.get("scheduler_steps", 0) >= 30
-        return Outcome(violation=dict(clause=v[0], detail=v[1]) if v else None, stats=stats, digest=res.digest, nontrivial=nontrivial,
-                       sample=dict(scenario=text, log_head=res.raw[:1500]), shape=ihash)
+        o = Outcome(violation=dict(clause=v[0], detail=v[1]) if v else None, stats=stats, digest=res.digest, nontrivial=nontrivial,
+                    sample=dict(scenario=text, log_head=res.raw[:1500]), shape=ihash)
+        if keep_events:
+            o.events = res.events
+        return o
 
     def shrink(self, case):
         for q in th.shrink_scenario(th.normalise(case["sc"])):
@@ -110,7 +177,7 @@ class C16(ThreadsProperty):
     assumptions = ["baton passing serialises threads at synchronisation points: sequentially consistent interleavings only",
                    "the conflating policy is checked for subset / per-producer order / refusals only (merged state of TS<Int> is the last value)"]
 
-    def run(self, case, fresh=False):
+    def run_one(self, case, fresh=False, keep_events=False):
         sc, text, res = self.execute(case, fresh)
         if res.timeout:
             return Outcome(harness_error="timeout (real blocking inside the simulator?)", sample=text)
@@ -122,7 +189,7 @@ class C16(ThreadsProperty):
                            sample=dict(scenario=text))
         h = th.History(res.events, sc)
         v, stats = th.check_push(h)
-        return self.outcome(sc, text, res, v, stats)
+        return self.outcome(sc, text, res, v, stats, keep_events)
 
 
 PROPERTY = C16()
